@@ -7,7 +7,9 @@ __CPROVER_assigns(__CPROVER_object_whole(fpowm_table), __tmcg_thrown)
 /* at a call site the contract also logs which table was filled for how many exponent bits (monitor of the call's
  * arguments, true by construction; callers state with it that a table covers the exponents used with it) */
 __CPROVER_assigns(__CPROVER_object_whole(fpowm_table), __tmcg_thrown, ghost_pre_tab, ghost_pre_t)
-__CPROVER_ensures(__tmcg_thrown == 0 ==> ghost_pre_tab == (const void *)fpowm_table && ghost_pre_t == t)
+/* (the table is logged by its object number: a havocked POINTER cannot be made equal to an object allocated after
+ * function entry -- measured: the pointer form made every successful run of the stream constructors infeasible) */
+__CPROVER_ensures(__tmcg_thrown == 0 ==> ghost_pre_tab == __CPROVER_POINTER_OBJECT(fpowm_table) && ghost_pre_t == t)
 #endif
 /* C12: the modulus comes from the wire in every stream constructor; a zero modulus is refused
  * (GMP would divide by zero), every other modulus is processed */
